@@ -17,13 +17,15 @@
      nr_dump_equals_rec_dump  : rec_dump fuel root = Some r -> exists fuel', nr_dump fuel' root = Some r
      rec_dump_equals_nr_dump  : nr_dump fuel root = Some r -> exists fuel', rec_dump fuel' root = Some r
      dumps_agree              : whenever both return (any fuels), they return the same thing
+     nr_dump_sound, rec_dump_sound : a returned dump is a Drain / RunA derivation
    stack depth
      runa_depth (runa_f instrumented with the maximal nesting of save()), runa_depth_runa_f,
      realsave_no_descent, realsave_defers_after_first_save,
      chain_depth (recursive depth 31 on a chain 0..30), chain_nr_same (scheduler: same result)
    non-vacuity / generated cases
      shared_and_cyclic (pcheck on a graph with a shared child and a cycle, GET vs full body
-     decided by the memo at entry), pcheck_sound. *)
+     decided by the memo at entry), shared_and_cyclic_rejects (the checker can say false),
+     pcheck_sound, pcheck_relational. *)
 From EG Require Import Base Pickler.
 
 Section PicklerProofs.
@@ -318,6 +320,16 @@ Section PicklerProofs.
     eapply drain_f_sound. exact H.
   Qed.
 
+  Lemma nr_dump_sound : forall fuel root m' o',
+    nr_dump expand fuel root = Some (m', o') -> Drain expand [IS root] [] [] m' o'.
+  Proof. unfold nr_dump. intros fuel root m' o' H. eapply drain_f_sound. exact H. Qed.
+
+  Lemma rec_dump_sound : forall fuel root m' o',
+    rec_dump expand fuel root = Some (m', o') -> RunA expand (expand [] root) [] [] m' o'.
+  Proof.
+    unfold rec_dump. intros fuel root m' o' H. apply RunA_save_root. eapply runa_f_sound. exact H.
+  Qed.
+
   (* whatever the fuels: two answers are the same answer *)
   Theorem dumps_agree : forall f1 f2 root r1 r2,
     rec_dump expand f1 root = Some r1 -> nr_dump expand f2 root = Some r2 -> r1 = r2.
@@ -501,7 +513,7 @@ Corollary pcheck_relational : forall tbl root em eo,
   RunA (table_expand tbl) (table_expand tbl [] root) [] [] em eo.
 Proof.
   intros tbl root em eo H. apply pcheck_sound in H. destruct H as [H _].
-  apply drain_f_sound in H. split; [exact H | now apply recursive_equals_lazy].
+  apply nr_dump_sound in H. split; [exact H | now apply recursive_equals_lazy].
 Qed.
 
 Print Assumptions lazy_equals_recursive.
@@ -518,6 +530,8 @@ Print Assumptions drain_f_mono.
 Print Assumptions nr_dump_equals_rec_dump.
 Print Assumptions rec_dump_equals_nr_dump.
 Print Assumptions dumps_agree.
+Print Assumptions nr_dump_sound.
+Print Assumptions rec_dump_sound.
 Print Assumptions runa_depth_runa_f.
 Print Assumptions realsave_no_descent.
 Print Assumptions realsave_defers_after_first_save.
